@@ -313,6 +313,13 @@ class Impl(object):
             return self.call(lambda: [t.get_page_indegree(a[0]), t.get_page_outdegree(a[0]), t.get_page_degree(a[0]),
                                       t.get_page_indegree(a[0], weighted=True), t.get_page_outdegree(a[0], weighted=True),
                                       t.get_page_degree(a[0], weighted=True)])
+        if op == 47:
+            def go():
+                node = t.lru_trie.lru_node(a[0])
+                if not node:
+                    return [None, None, None]
+                return [node.block, node.block, t.lru_trie.windup_lru(node.block)]
+            return self.call(go)
         if op == 40:
             return self.call(lambda: list(t.expand_prefix(a[0])))
         if op == 41:
